@@ -42,6 +42,9 @@ pub fn c16_sin_cos_dispatch() {
     let x = any_valid();
     let s = x.sin();
     let c = x.cos();
+    if native() {
+        return; // structural claim about private kernels: nothing to compare on the real code
+    }
     #[allow(static_mut_refs)]
     unsafe {
         assert!(T_QUAD.n == 2 && T_QUAD.key[0] == k2(x));
@@ -72,6 +75,9 @@ pub fn c16_sin_cos_dispatch() {
 pub fn c16_tan_dispatch() {
     let x = any_valid();
     let t = x.tan();
+    if native() {
+        return;
+    }
     #[allow(static_mut_refs)]
     unsafe {
         assert!(T_QUAD.n == 1 && T_QUAD.key[0] == k2(x));
@@ -91,8 +97,14 @@ pub fn c16_tan_dispatch() {
     reached();
 }
 
-//@ id=C16 tier=quick to=1200 cfg=std exh=1 desc="an invalid argument gives an invalid result: sin, cos, both components of sin_cos, and tan, for every invalid bit pattern (real code)"
-#[cfg_attr(kani, kani::proof)]
+//@ id=C16 tier=quick to=1200 cfg=std exh=1 stub=1 stubs="quadrant, kernels, f64/TwoFloat -> arbitrary: invalid arguments return before reaching them" desc="an invalid argument gives an invalid result: sin, cos, both components of sin_cos, and tan, for every invalid bit pattern (real code)"
+#[cfg_attr(all(kani, feature = "stubs"), kani::proof)]
+#[cfg_attr(all(kani, feature = "stubs"), kani::unwind(17))]
+#[cfg_attr(all(kani, feature = "stubs"), kani::stub(twofloat::functions::trigonometry::quadrant, uf_quadrant))]
+#[cfg_attr(all(kani, feature = "stubs"), kani::stub(twofloat::functions::trigonometry::restricted_sin, uf_rsin))]
+#[cfg_attr(all(kani, feature = "stubs"), kani::stub(twofloat::functions::trigonometry::restricted_cos, uf_rcos))]
+#[cfg_attr(all(kani, feature = "stubs"), kani::stub(twofloat::functions::trigonometry::restricted_tan, uf_rtan))]
+#[cfg_attr(all(kani, feature = "stubs"), kani::stub(<&f64 as core::ops::Div<&twofloat::TwoFloat>>::div, crate::uf::havoc_f64t))]
 pub fn c16_invalid_in_invalid_out() {
     let x = any_tf();
     assume(!spec_valid(x));
